@@ -16,10 +16,58 @@ def case_probe():
     return hit, "an accepted program fails with the static-class fault UndefinedVariable because the runtime looks the variable up case-sensitively: " + out.strip()[:200], CASE_PROBE
 
 
+PROPERTY_PROBE = ("CLASS Motor\nVAR\n  speed_value : DINT := 0;\nEND_VAR\nPUBLIC PROPERTY Speed : DINT\nGET\n  Speed := speed_value;\nEND_GET\nSET\n  speed_value := Speed;\nEND_SET\nEND_PROPERTY\nEND_CLASS\n"
+                  "PROGRAM Main\nVAR\n  m : Motor;\n  i : DINT;\nEND_VAR\nm.Speed := DINT#4;\ni := m.Speed;\nEND_PROGRAM\n")
+FBARRAY_PROBE = ("FUNCTION_BLOCK Acc\nVAR_INPUT\n  x : DINT;\nEND_VAR\nVAR_OUTPUT\n  y : DINT;\nEND_VAR\ny := y + x;\nEND_FUNCTION_BLOCK\n"
+                 "PROGRAM Main\nVAR\n  fa : ARRAY[0..2] OF Acc;\n  i : DINT;\nEND_VAR\nfa[DINT#1](x := DINT#2);\ni := fa[DINT#1].y;\nEND_PROGRAM\n")
+
+
+def source_probe(name, src, fault):
+    def run():
+        binary = vlib.cargo_build("stsweep")
+        path = os.path.join(vlib.CACHE, "c01_%s.st" % name)
+        open(path, "w").write(src)
+        rc, out = vlib.run([binary, "--run", path], timeout=120)
+        hit = any(t.startswith("S:") or t in ("PANIC", "FRAMES", "HANG") for t in out.split())
+        return hit, "an accepted program fails with a static-class fault (expected here: %s): %s" % (fault, out.strip()[:200]), src
+    return run
+
+
+def feature_sweep(tier):
+    """accepted programs over language features outside the Coq model, judged by the property's oracle alone (harness/src/bin/stsweep.rs)"""
+    binary = vlib.cargo_build("stsweep")
+    n = 1500 if tier == "quick" else 30000
+    out = os.path.join(vlib.CACHE, "c01_sweep.out"); srcdir = os.path.join(vlib.CACHE, "c01_sweep_src")
+    rc, o = vlib.run([binary, str(n), out, srcdir], timeout=3000)
+    if rc != 0:
+        raise vlib.CheckError("stsweep failed: " + o[-1000:])
+    outcomes, mods, rejected, bad = {}, {}, 0, []
+    for line in open(out):
+        parts = [x.strip() for x in line.split(" : ", 2)]
+        if len(parts) < 3: continue
+        toks = parts[2].split(); last = (toks[-1] if toks else "?").split("#")[0]
+        key = "rejected" if last.startswith("REJECT") else last
+        outcomes[key] = outcomes.get(key, 0) + 1
+        for m in parts[1].split(","): mods[m] = mods.get(m, 0) + 1
+        if key == "rejected": rejected += 1
+        elif last.startswith("S:") or last in ("PANIC", "FRAMES", "HANG"): bad.append((parts[0], parts[1], parts[2]))
+    cov = {"programs": n, "accepted": n - rejected, "last_outcome": dict(sorted(outcomes.items())), "programs_per_feature_module": dict(sorted(mods.items())), "violations": len(bad),
+           "note": "testing, not proof: these features are outside Model/StCore.v; the oracle is the property text (no panic, no static-class fault, no frame left)"}
+    if bad:
+        pid, pm, po = bad[0]
+        src = open(os.path.join(srcdir, pid + ".st")).read()
+        return True, "an accepted program using %s ended a cycle with %s (feature sweep, program %s of seed %d)" % (pm, po.split()[-1], pid, vlib.seed()), src, cov
+    return False, "", "", cov
+feature_sweep.wants_tier = True
+
+
 def check(tier):
     return st_common.run("C01", tier, "J01", "an accepted program panicked, left a call frame behind or raised a static-class fault",
                          "assign-uncoerced-static-fault", "static-class fault reached through values stored with a foreign type tag", "C01",
-                         probes=[("case-sensitive-variable-lookup", case_probe)])
+                         probes=[("case-sensitive-variable-lookup", case_probe),
+                                 ("property-access-undefined-field", source_probe("property", PROPERTY_PROBE, "UndefinedField")),
+                                 ("array-of-fb-instances", source_probe("fbarray", FBARRAY_PROBE, "TypeMismatch")),
+                                 ("feature-sweep", feature_sweep)])
 
 
 def replay(path):
